@@ -270,6 +270,7 @@ class Type4Tag(nfc.tag.Tag):
                 log.warning("insufficient capability data")
                 return False
 
+            capabilities = capabilities[0:15]  # not more than requested
             capabilities += (15-len(capabilities)) * b"\0"  # for unpack
             ver, mle, mlc, tag, val = unpack(">BHHB9p", capabilities)
             log.debug("ndef mapping version %d.%d", ver >> 4, ver & 15)
